@@ -178,7 +178,40 @@ class VSelect:
 					raise StopLoop()
 				self.net.cond.wait(0.05)
 
+	# also usable where the code imported the function itself (`from select import select`)
+	def __call__(self, rlist, wlist, xlist, timeout = None):
+		return self.select(rlist, wlist, xlist, timeout)
+
 	def request_stop(self):
 		with self.net.cond:
 			self.stop = True
 			self.net.cond.notify_all()
+
+
+def attach(module, net):
+	""" Put the in-memory network in place of whatever the module uses to create sockets:
+	    the `socket` module under any name, or the `socket.socket` class imported directly. """
+	import socket as real
+	sm = net.socket_module()
+	n = 0
+	for name, val in list(vars(module).items()):
+		if val is real or val is real.socket or isinstance(val, VSocketModule):
+			setattr(module, name, sm)
+			n += 1
+	return n
+
+
+def attach_select(module, vs):
+	""" Same for the `select` module / the `select.select` function. Returns what was replaced. """
+	import select as real
+	saved = {}
+	for name, val in list(vars(module).items()):
+		if val is real or val is real.select or isinstance(val, VSelect):
+			saved[name] = val
+			setattr(module, name, vs)
+	return saved
+
+
+def detach(module, saved):
+	for name, val in saved.items():
+		setattr(module, name, val)
